@@ -168,6 +168,10 @@ def parseOp : List String → Option Op
   | ["fnext", "get"] => some (.failNext .get)
   | ["fnext", "set"] => some (.failNext .set)
   | ["frelease"] => some .failRelease
+  -- the database is shut down right AFTER it took the write of this call (and opened again after the call): the call is an
+  -- ordinary successful Next / Release - the write happened before the shutdown
+  | ["cnext"] => some .next
+  | ["crelease"] => some .release
   | _ => none
 
 def showOut : Out → String
